@@ -6,13 +6,13 @@
    statements on the projected trace and cross-checks them against the theorems' predictions for the repaired
    variant (MODELBUG if the extracted code disagrees with what is proved). *)
 (* variants: v<s><o><l><p><t><q><g> = fix_sent, fix_order, fix_l2stop, fix_prune, fix_l2tp, fix_presend, fix_ghost on top of
-   the first three repairs; "head" = v1011011 = /repo HEAD; "repaired" = v1111111; "defective" = the code as first found *)
+   the first three repairs; "head" = v1011111 = /repo HEAD; "repaired" = v1111111; "defective" = the code as first found *)
 let variant_of name =
   let mk s o l p t q g = { fix_counters = true; fix_stop = true; fix_active = true; fix_sent = s; fix_order = o; fix_l2stop = l;
                            fix_prune = p; fix_l2tp = t; fix_presend = q; fix_ghost = g } in
   match name with
   | "repaired" | "" -> mk true true true true true true true
-  | "head" -> mk true false true true false true true
+  | "head" -> mk true false true true true true true
   | "defective" -> { fix_counters = false; fix_stop = false; fix_active = false; fix_sent = false; fix_order = false;
                      fix_l2stop = false; fix_prune = false; fix_l2tp = false; fix_presend = false; fix_ghost = false }
   | s when String.length s = 8 && s.[0] = 'v' ->
@@ -296,7 +296,7 @@ let run_case v line =
         let exc_p = pruned.(j) && not v.fix_prune and exc_d = delayed.(j) && not v.fix_order
         and exc_g = ghosted.(j)      (* only set for variants without fix_ghost *)
         and exc_q = forgot.(j) && not v.fix_presend
-        and exc_t = is_t j && not v.fix_l2tp in     (* known finding: l2tp lifecycle events are not decoded *)
+        and exc_t = is_t j && not v.fix_l2tp in     (* fixed in a967234: l2tp lifecycle events were not decoded *)
         let any = exc_p || exc_d || exc_g || exc_q || exc_t in
         ignore snt;
         let unexcused = (not brk && not any) || (not stp && not (exc_g || exc_t)) || (not mono && not (wraps || any))
